@@ -25,12 +25,18 @@ vars == <<st, in, out>>
 \* labels, whatever order the code validates and folds in.
 IdLabels    == {"cli", "CLi-9", "a_b", "-ab", "ab-", "L63", "L64", "EMPTY", "9x", "KELVIN", "IDOT"}
 MCValid     == {"cli", "CLi-9", "L63", "9x", "other", "dns-query", "dns-querycli", "xdns-query"}
-MCLower     == [x \in {"CLi-9"} |-> "cli-9"]
+\* Lower-casing of the labels of the universe that hold capitals: the id label
+\* CLi-9 and the case variants of the configured names' labels.
+MCLower     == [x \in {"CLi-9", "EXAMPLE", "Com", "Dns"} |->
+                  CASE x = "CLi-9" -> "cli-9" [] x = "EXAMPLE" -> "example" [] x = "Com" -> "com" [] x = "Dns" -> "dns"]
+\* The same name in another letter case.
+UpperLabel(l) == CASE l = "example" -> "EXAMPLE" [] l = "com" -> "Com" [] l = "dns" -> "Dns" [] OTHER -> l
+UpperName(n)  == [i \in 1..Len(n) |-> UpperLabel(n[i])]
 
 INSTANCE ClientIDCore WITH ValidLabels <- MCValid, LowerMap <- MCLower
 
 \* <<>> = no server name configured.
-HostNames == {<<>>, <<"example", "com">>, <<"dns", "example", "com">>}
+HostNames == {<<>>, <<"example", "com">>, <<"dns", "example", "com">>, <<"Dns", "EXAMPLE", "com">>}
 
 
 \* Client server names offered for a configured name h.
@@ -38,6 +44,11 @@ CliNames(h) ==
     LET base == IF h = <<>> THEN <<"example", "com">> ELSE h IN
     {<<>>, base}
       \cup {<<l>> \o base : l \in IdLabels}
+      \* the configured name in another letter case: equal, <id>.<name>, deeper
+      \cup {UpperName(base), LowerName(base)}
+      \cup {<<l>> \o UpperName(base) : l \in {"cli", "CLi-9", "a_b", "EMPTY"}}
+      \cup {<<l>> \o LowerName(base) : l \in {"cli", "CLi-9"}}
+      \cup {<<"cli", "cli">> \o UpperName(base)}
       \cup {<<l, m>> \o base : l \in {"cli", "a_b"}, m \in {"cli", "CLi-9"}}
       \cup {<<"other", "com">>, <<"xexample", "com">>, <<"cli", "xexample", "com">>,
             <<"cli", "other", "com">>, <<"com">>, <<"cli", "com">>,
@@ -58,6 +69,7 @@ Paths == {<<>>} \cup {<<a>> : a \in Segs} \cup {<<a, b>> : a, b \in Segs}
 HttpsCli(h) ==
     LET base == IF h = <<>> THEN <<"example", "com">> ELSE h IN
     {<<>>, base, <<"cli">> \o base, <<"a_b">> \o base, <<"CLi-9">> \o base,
+     UpperName(base), <<"cli">> \o UpperName(base),
      <<"other", "com">>, <<"cli", "cli">> \o base, <<"cli", "xexample", "com">>}
 
 Emit(i, o) == PrintT(<<"@@V", ToJson([in |-> i, out |-> o])>>)
